@@ -17,7 +17,7 @@
                                                       runs the lists one after the other
             | L <cluster>                             the consumer list of the cluster (StorageFetchConsumers on the composed
                                                       machine's storage state; what GET /v3/kafka/<cluster>/consumer serves)
-   <allow>/<deny> index the pattern pool (0 = not set), names are hex ("-" = empty); topic ids n of the cluster tables are
+   <allow>/<deny> index the pattern pool (0 = key absent, 7 = key present but empty: no list either), names are hex ("-" = empty); topic ids n of the cluster tables are
    the names "t<n>".
 
    output: the answers of the S and L events joined by " | "; "DIED" when the model says the process dies.
@@ -90,8 +90,13 @@ let pat_match (idx : int) (g : int list) : bool =
   | 6 -> List.mem 120 g                        (* x *)
   | _ -> failwith "drv_pipeline: pattern index"
 
+(* list settings (PIPE's own pool, mirrors checks/pipegen.py and probes/pipeline): 0 = key absent, 1..6 = a pattern,
+   7 = key present with the empty string = no list *)
+let is_set (idx : int) : bool =
+  if idx < 0 || idx > 7 then failwith "drv_pipeline: list setting outside the pool" else idx <> 0 && idx <> 7
+
 let accept (allow : int) (deny : int) (g : int list) : bool =
-  (allow = 0 || pat_match allow g) && not (deny <> 0 && pat_match deny g)
+  (not (is_set allow) || pat_match allow g) && not (is_set deny && pat_match deny g)
 
 let ints_of_string (s : string) : int list = List.init (String.length s) (fun i -> Char.code s.[i])
 
